@@ -37,7 +37,32 @@ CHECKS = {
          "Every (formula, variable, sort-compatible term) of the binder-heavy families: the truth table of F.substitute(x,t) equals that of F under the assignment updated with the term's value, and the free-variable equation holds.",
          "trusted: grounder (both sides have the same binder structure, so windows play no role)", "4 C17"),
 }
-CLAIMED = ["C01", "C03", "C04", "C05", "C06", "C07", "C08", "C09", "C12", "C17"]
+
+CHECKS.update({
+ "C02": ("bounded-exhaustive enumeration of external tasks x flags x placeholder values x ALL interpretations of public and private predicates; refutation tables projected to the public vocabulary vs stable models with inputs of the reference semantics",
+         "Every accepted (program-or-specification, program, user guide) triple of the task alphabet under all 8 flag combinations and all placeholder values: the public projection of the interpretations refuting some forward/backward problem of the real ExternalEquivalenceTask::decompose() equals the reference notion of behavioural difference (stable models with inputs computed from HT truth tables, specification formulas by direction).",
+         "trusted: reference semantics and stable-model computation, grounder, finite slice; projection form (an extension to the private predicates exists) as stated in evidence", "4 C02"),
+ "C11": ("exhaustive enumeration of small programs (dependency graphs), of rules (regularity) and of task/user-guide shapes (enforcement) against reference predicates",
+         "is_tight() and has_private_recursion are compared with reference graph algorithms on every 1-2 rule program (and 3-rule / long-cycle families) over an abstract alphabet with all private sets; is_regular() with the manual's definition on C01's rules; for 17x(17+8)x12 task shapes x bypass flag, decompose() may return problems only if all listed conditions hold.",
+         "trusted: reference predicates in engine/src/refsem.rs and c11.rs, written from the manual's definitions; enforcement is one-directional as the property is worded", "4 C11"),
+ "C13": ("exhaustive enumeration of proof outlines (<= 3 entries over 19 entry shapes x 3 directions) x base tasks x directions x decompositions; structural oracle on every emitted problem + truth-table check of induction obligations",
+         "For every outline the emitted problem sequence is checked: axioms of each outline problem come only from the direction's premises (taken from the run without outline), accepted definitions and lemmas established earlier; final problems follow; invalid definitions must be refused; base/step obligations equal the environment-update semantics of F[n/N] and N >= n & F -> F[N+1/N] on all interpretations.",
+         "trusted: the reference validity predicate for definitions, name-based identification of formulas (all inputs are named), grounder for the induction check", "4 C13"),
+ "C14": ("bounded-exhaustive enumeration of syntax trees (via fully parenthesised text) and of token strings; parse-print-parse comparison",
+         "Every term of T_0..T_2 (+ depth-3 subset), every rule/program of C01's alphabets and every token string of <= 4 (5) tokens over the term and rule alphabets: whenever anthem accepts a text, printing the tree and parsing again yields the identical tree and printing is a fixpoint.",
+         "trusted: nothing beyond anthem's own parser and printer (differential)", "4 C14"),
+ "C15": ("bounded-exhaustive enumeration of formulas, terms, annotated formulas, user-guide entries and token strings; parse-print-parse comparison; outputs of translations/simplifications re-parsed",
+         "Every formula of families A-G, term shapes, annotated formulas with every role x direction x name, user-guide entries, token strings of <= 4 (5) tokens, and the output of tau-star/natural/mu/gamma/completion and of the portfolios: printing and re-parsing yields the identical tree.",
+         "trusted: nothing beyond anthem's parser and printer; two known findings listed in KNOWN_FINDINGS.txt", "4 C15"),
+ "C16": ("bounded-exhaustive enumeration of token strings and of single/double token edits of all example files, each pushed through every later stage under catch_unwind",
+         "Every token string up to the length bound for the five parsers and every single-token edit (and nearby double deletion) of the example files: no panic in parsing or in any later stage (translations, simplification, formatting, analyses, task assembly), no input slower than 5 s; the CLI layer (cli/C16.sh) adds special files and exit-status checks.",
+         "trusted: catch_unwind + panic hook; claim limited to the stated edit/length bounds, not all byte strings; known findings (numeral/arity overflow) listed", "4 C16"),
+ "C19": ("bounded-exhaustive enumeration of tasks x all interpretations; differential comparison of refutation tables across the 8 flag combinations",
+         "For every accepted external task (incl. large numerals, division, undefined private predicates) and every strong task (x tau-star/mu) the set of interpretations over all predicates of the problems that refute some forward/backward problem is computed per flag combination and must be identical.",
+         "trusted: grounder, finite slice with two-window stability; no reference semantics needed", "4 C19"),
+})
+
+CLAIMED = ["C01", "C02", "C03", "C04", "C05", "C06", "C07", "C08", "C09", "C11", "C12", "C13", "C14", "C15", "C16", "C17", "C19"]
 
 NOT_YET = "engine for this property not built yet in this session (see DESIGN.md section 9)"
 
